@@ -233,6 +233,30 @@ class Gen:
         else:
             self.do({'op': 'remove', 'r': r, 'sets': [{'k': 'aset', 'v': text}], 'S': [text], 'start': start, 'end': j})
 
+    def g_restart_leftover(self):
+        """A setting applied underneath (topmost=False) inside formatted text and removed again leaves a stop+restart of
+        the older settings behind; a later topmost apply across that index must still come out on top."""
+        r = self.pick('S')
+        if not r:
+            return
+        n = self.length(r)
+        if n < 3:
+            return
+        pairs = [('31', '34'), ('34', '31'), ('1', '22'), ('31', '1'), ('4', '34')]
+        a_, b_ = self.rng.choice(pairs)
+        j = self.rng.randint(1, n - 1)
+        k = self.rng.randint(j + 1, n)
+        if self.rng.random() < 0.6:
+            self.do({'op': 'apply', 'r': r, 'sets': [{'k': 'aset', 'v': a_}], 'S': [a_], 'start': 0, 'end': None, 'top': True})
+        self.do({'op': 'apply', 'r': r, 'sets': [{'k': 'aset', 'v': b_}], 'S': [b_], 'start': j, 'end': k, 'top': False})
+        if self.rng.random() < 0.5:
+            self.do({'op': 'remove', 'r': r, 'sets': [{'k': 'aset', 'v': b_}], 'S': [b_], 'start': self.rng.randint(0, j), 'end': self.rng.choice([None, k, n])})
+        else:
+            self.do({'op': 'remove', 'r': r, 'sets': [{'k': 'aset', 'v': b_}], 'S': [b_], 'start': j, 'end': k})
+        c_ = self.rng.choice(['31', '34', '1', '22', '42'])
+        self.do({'op': 'apply', 'r': r, 'sets': [{'k': 'aset', 'v': c_}], 'S': [c_], 'start': self.rng.randint(0, j - 1),
+                 'end': self.rng.choice([None, n, k]), 'top': True})
+
     def g_clear(self):
         r = self.pick()
         if r:
@@ -285,6 +309,42 @@ class Gen:
             e = self.do({'op': 'iter', 'r': r})
             if e['out'] == 'ok' and e['res']:
                 self.do({'op': 'join', 'cls': 'S', 'items': e['res'], 'tag': 'rejoin_iter:%d' % r})
+
+    def g_shared_objects(self):
+        """Values that hold the very same AnsiSetting objects (self-concatenation, copies) with equal-valued overlapping
+        settings, concatenated, taken apart and joined again."""
+        if not self.room(14):
+            return
+        e = self.do({'op': 'new', 'cls': 'S', 'text': self.rng.choice(['aab', 'ab-', 'abab']), 'sets': [{'k': 'aset', 'v': '31'}], 'S': ['31']})
+        r = e['res'][0]
+        n = self.length(r)
+        if self.rng.random() < 0.6:
+            # two equal-valued settings, one covering the end and one covering the start, both underneath
+            code = self.rng.choice(['1', '34', '4'])
+            j = self.rng.randint(1, n - 1)
+            k = self.rng.randint(1, n - 1)
+            top = self.rng.random() < 0.25
+            self.do({'op': 'apply', 'r': r, 'sets': [{'k': 'aset', 'v': code}], 'S': [code], 'start': j, 'end': n, 'top': top})
+            self.do({'op': 'apply', 'r': r, 'sets': [{'k': 'aset', 'v': code}], 'S': [code], 'start': 0, 'end': k, 'top': top})
+        else:
+            for _ in range(self.rng.randint(1, 3)):
+                a_ = self.rng.randint(0, n - 1)
+                code = self.rng.choice(['1', '1', '34'])
+                self.do({'op': 'apply', 'r': r, 'sets': [{'k': 'aset', 'v': code}], 'S': [code], 'start': a_,
+                         'end': self.rng.randint(a_ + 1, n), 'top': self.rng.random() < 0.4})
+        c = self.do({'op': 'copy', 'r': r})['res'][0]
+        t = self.do({'op': self.rng.choice(['add', 'add', 'iadd']), 'r': r, 'other': self.rng.choice([r, c])})
+        if t['out'] != 'ok':
+            return
+        t = t['res'][0]
+        if self.rng.random() < 0.7:
+            t2 = self.do({'op': 'add', 'r': t, 'other': self.rng.choice([c, r, t])})
+            if t2['out'] == 'ok':
+                t = t2['res'][0]
+        if self.length(t) <= 9 and self.room(self.length(t) + 2):
+            it = self.do({'op': 'iter', 'r': t})
+            if it['out'] == 'ok' and it['res']:
+                self.do({'op': 'join', 'cls': 'S', 'items': it['res'], 'tag': 'rejoin_iter:%d' % t})
 
     def other_operand(self, r):
         x = self.rng.random()
@@ -662,11 +722,11 @@ PROFILES = {
     'C16': weights(matching=5, apply=3, remove=1, slice=0.5, render=0.2),
     'C17': weights(find_settings=5, settings_at=2.5, apply=4, remove=2, slice=0.5, add=0.7, iadd=0.7),
     'C04': weights(slice=5, index=2, clip=2, iter=0.6, apply=3, remove=1.5),
-    'C05': weights(add=4, iadd=4, join=2, split_rejoin=2, slice=2, iter_join=1.0),
-    'C06': weights(apply=6, remove=1.5, slice=1),
+    'C05': weights(add=4, iadd=4, join=2, split_rejoin=2, slice=2, iter_join=1.0, shared_objects=0.8),
+    'C06': weights(apply=6, remove=1.5, slice=1, restart_leftover=1.5),
     'C07': weights(remove=4, remove_edge=2.5, apply=5, clear=0.3),
     'C08': weights(copy=3, add=2.5, iadd=2.5, join=1.5, slice=3, new_from=2),
-    'C09': weights(iter_join=1.0, iadd=2.5, replace=1.0, pad=2.0, pad_nested=1.0, remove_edge=0.7, split=0.7, partition=0.5, strip=0.5, rmfix=0.5, case=0.3,
+    'C09': weights(iter_join=1.0, iadd=2.5, replace=1.0, pad=2.0, pad_nested=1.0, remove_edge=0.7, restart_leftover=0.5, shared_objects=0.8, split=0.7, partition=0.5, strip=0.5, rmfix=0.5, case=0.3,
                    assign_str=0.5, query=0.5, matching=0.5, simplify=0.3, expandtabs=0.3, splitlines=0.3),
 }
 
